@@ -132,9 +132,29 @@ def handler : Handler S where
     | _ => s
   onEnd := fun s =>
     let cfg := s.cfg
-    -- rejection clause, judged on the configuration alone
-    let unsup := someUnsupported cfg
-    let cyc := pipeCyclic cfg
+    -- The verdicts are computed with the MODEL functions whose meaning `C09_check_sound` fixes on the configuration alone
+    -- (build ↔ UnsupportedUse / ConnectorCycle; nodes ↔ the sharing characterisations; deliver over flowEdges ↔ CfgRoute).
+    -- The independently written config-level enumerators (`someUnsupported`, `pipeCyclic`, `expectedKeys`, `routesFrom`) are
+    -- kept as a cross-check of the model on every case (`prop refagree`).
+    let b := build cfg
+    let unsup := b == some BuildErr.connector
+    let cyc := b == some BuildErr.cycle
+    let modelKeys := sortStr (((nodes cfg).filter Node.isComp).map (fun n => nodeTok n ++ "=1"))
+    let fes := s.es.getD (flowEdges cfg)
+    let modelRoutes (sg : Sig) (i : Nat) : Option (List String) :=
+      (deliver (succOf fes) (fes.length + 2) (Node.recv sg i)).map (fun ws => sortStr (ws.map walkTok))
+    let refDisagree : Option String :=
+      if someUnsupported cfg != unsup then some "unsupported-use"
+      else if !unsup && pipeCyclic cfg != cyc then some "connector-cycle"
+      else if expectedKeys cfg != modelKeys then some "component-keys"
+      else if b.isNone then
+        (s.implRoutes.findSome? (fun (sg, i, _) =>
+          if modelRoutes sg i == some (sortStr ((routesFrom cfg sg i).map (fun te => deliveryTok te.1 te.2))) then none
+          else some s!"routes-{sg.toNat}:{i}"))
+      else none
+    let refProp := match refDisagree with
+      | none => "prop refagree=ok"
+      | some w => s!"prop refagree=FAIL sig=C09/model/config-level-reference-disagrees-with-model {w}"
     let rejectProp :=
       match s.implBuild with
       | none => "prop reject=ok"
@@ -152,7 +172,7 @@ def handler : Handler S where
       match s.implNodes with
       | none => "prop sharing=ok"
       | some got =>
-        let want := expectedKeys cfg
+        let want := modelKeys
         if got = want then "prop sharing=ok"
         else
           let kind := match (got.filter (fun t => !(want.contains t)) ++ want.filter (fun t => !(got.contains t))).head? with
@@ -160,8 +180,7 @@ def handler : Handler S where
             | none => "?"
           s!"prop sharing=FAIL sig=C09/sharing/instances-{kind} {firstDiff want got}"
     let routeFail := s.implRoutes.findSome? (fun (sg, i, got) =>
-      let ref := routesFrom cfg sg i
-      let want := sortStr (ref.map (fun te => deliveryTok te.1 te.2))
+      let want := (modelRoutes sg i).getD ["out-of-fuel"]
       if got = want then none
       else
         let expOf (t : String) : String := (t.splitOn "|").headD ""
@@ -181,7 +200,7 @@ def handler : Handler S where
         | some l => if cycleMsgOk cfg l then "prop cyclemsg=ok" else s!"prop cyclemsg=FAIL sig=C09/reject/cycle-message-not-a-cycle {toks}"
     match s.bad with
     | some b => [s!"prop protocol=FAIL sig=C09/harness/unparsable {b}"]
-    | none => [rejectProp, sharingProp, routeFail.getD "prop routing=ok", cycleProp]
+    | none => [rejectProp, sharingProp, routeFail.getD "prop routing=ok", cycleProp, refProp]
 
 end OtelVerif.Drivers.C09
 
